@@ -432,8 +432,9 @@ func (s *Session) execGo(st *State, g *ssa.Go) {
 	name := s.P.fnName(callee)
 	if con == nil {
 		if s.sweep {
-			s.note("go " + name + ": no contract; spawned body is verified separately, caller state havocked")
-			s.havocAll(st)
+			// the spawned function runs concurrently: the spawner relies on nothing it does
+			// (race freedom of non-shared state is the listed assumption); its body is not checked here
+			s.note("go " + name + ": spawned without a contract (body not verified in this check)")
 			return
 		}
 		fatalf("%s: go statement: %s has no contract", s.name, name)
